@@ -959,3 +959,46 @@ CORNERS = [
     # non-ASCII identifiers
     "ä = 1\n", "данные = 1\n", "名前 = 1\n", "µ = 1\n", "ﬁ = 1\n", "x = ａ\n", "x.é = 1\n", "def é(ñ): pass\n", "import é\n", "x = 'é'\n", "x = b'e'\n", "class Ü: pass\n", "e\u0301 = 1\n", "x = a\u00b7b\n", "℘ = 1\n", "x = 'a\u2028b'\n",
 ]
+
+
+# ====================================================================== string-prefix × body-shape grid (systematic, not sampled)
+def all_string_prefixes():
+    """every legal string prefix of the running interpreter in EVERY case permutation and letter order ('' r R u U b B f F br Br bR
+    BR rb … fr Fr fR FR rf …): tokenize's own table"""
+    return sorted(tokenize._all_string_prefixes(), key=lambda p: (len(p), p.lower(), p))
+
+
+# body shapes as written between the quotes; Q = the literal's own quote character, P = the other quote character
+_BODY_SHAPES = [
+    "", "abc", "a b", "a\\nb", "\\\\", "a\\\\", "\\d", "C:\\dir\\name", "a\\Qb", "\\Q", "aPb", "\\x41\\101", "{{", "}}", "{{x}}", "{{}}",
+    # replacement fields (plain text for non-f literals)
+    "{x}", "a{x}b{y}c", "{x!r}", "{x!s:>5}", "{x:>5}", "{x:{w}}", "{x:{w}.{p}}", "{x:a{w}b}", "{x=}", "{x = }", "{x=:>5}", "{x=!r}", "{{{x}}}", "{{{x}}}}}",
+    "{d[PkP]}", "{f(PaP)}", "{x}{y}", "{ x }", "{x:}", "{x:%Y-%m}", "{x!a}",
+    # backslashes next to braces and quotes
+    "\\{x}", "C:\\{name}", "a\\{x}b", "{x}\\d", "\\\\{x}", "\\d{x}", "\\Q{x}", "{x}\\Q", "{x:\\d}", "\\{{x}}", "\\N{BULLET}", "\\N{BULLET}{x}", "\\n{x}\\t", "{x}\\\\",
+    "{P\\nP}", "{x:{P>P}}", "{x + 1}", "{fP{y}P}", "{x if y else z}", "{(lambda: 1)()}", "{x,}", "{*a,}",
+]
+
+
+def string_grid():
+    """-> [(description, source)]: every prefix spelling × every body shape × the four quote styles, as `v = <literal>`; kept when
+    CPython accepts the text (warnings about invalid escapes are not errors)"""
+    import warnings
+
+    out = []
+    for pre in all_string_prefixes():
+        for q in ("'", '"', "'''", '"""'):
+            other = '"' if q[0] == "'" else "'"
+            for shape in _BODY_SHAPES:
+                body = shape.replace("Q", q[0]).replace("P", other)
+                if "b" in pre.lower() and not body.isascii():
+                    continue
+                src = f"v = {pre}{q}{body}{q}\n"
+                try:
+                    with warnings.catch_warnings():
+                        warnings.simplefilter("ignore")
+                        ast.parse(src)
+                except (SyntaxError, ValueError):
+                    continue
+                out.append((f"grid {pre or '(none)'} {q}", src))
+    return out
